@@ -235,7 +235,33 @@ func c18tls(c *Ctx) {
 		ok, why := true, "nil only after HandshakeContext == nil and (InsecureSkipVerify or VerifyHostname(cfg.ServerName) == nil)"
 		n := 0
 		c.explore("C18.verify", doHS, core.Opts{}, func(p *core.Path) {
-			if p.End != core.EndReturn || len(p.Results) != 1 || !p.Results[0].IsNil() {
+			if p.End != core.EndReturn || len(p.Results) != 1 {
+				return
+			}
+			if res := p.Results[0]; !res.IsNil() {
+				// returning the verdict of VerifyHostname itself is the same as testing it
+				isVH := false
+				if res.Kind == core.KCall {
+					if f, isF := res.Ref.(*ssa.Function); isF && extName(f) == "(*crypto/tls.Conn).VerifyHostname" {
+						isVH = true
+					}
+				}
+				if !isVH {
+					return
+				}
+				n++
+				var hc *core.Event
+				for i := range p.Events {
+					ev := &p.Events[i]
+					if ev.Kind == core.EvCall && ev.Static != nil && extName(ev.Static) == "(*crypto/tls.Conn).HandshakeContext" {
+						hc = ev
+					}
+				}
+				if hc == nil || !hasLit(p, len(p.Lits), true, func(t *core.Term) bool { return isEqNil(t, is(hc.Result)) }) {
+					ok, why = false, "hostname verification is returned without a successful TLS handshake before it"
+				} else if !dialerField(res.Args[1], "ServerName") || res.Args[0] != hc.Args[0] {
+					ok, why = false, "the hostname verified is not cfg.ServerName of this connection"
+				}
 				return
 			}
 			n++
